@@ -560,7 +560,12 @@ fn run_case(case: &Value, eng: &Engine) -> Value {
                 for t in &tcs {
                     if let Ok(sp) = pikevm_find(j, t) {
                         if sp != Some((0, t.len())) {
-                            bad.push(json!({"t": cps(t), "span": format!("{sp:?}")}));
+                            // class of known finding K2: a proper prefix of t is itself in the language
+                            let k2 = t
+                                .char_indices()
+                                .map(|(i, _)| &t[..i])
+                                .any(|p| pikevm_full(j, p).unwrap_or(false));
+                            bad.push(json!({"t": cps(t), "span": format!("{sp:?}"), "k2": k2}));
                         }
                         if let Ok(re) = &compiles {
                             if !f.sur {
